@@ -46,6 +46,17 @@ Coordinates: only the coordinate that is WRITTEN (named with ``coord=`` or selec
 decides whether the data can be represented; every other coordinate may be of any kind scipp lets a 1-d data
 array carry (bin-edges, other dtypes, variances, scalars, leftovers of slicing).
 
+The calling side: the numbers in a file and the arrays that come back are a function of the data alone.  They do
+not depend on process-wide settings that change how numbers are rendered or parsed elsewhere (numpy's print options
+incl. the legacy modes, the locale incl. one with a decimal comma, the ``decimal`` context, the working directory
+under which a relative name is given): the driver sets each of them before the call(s) it covers and puts it back
+afterwards, the monitors judge the file / the result as always.  Nor do they depend on the calling convention the
+signature allows, on the kind of ``str`` a name is (``numpy.str_``, a subclass, a member of a ``(str, Enum)``), on
+units given as ``scipp.Unit`` or as text, on what the dimension is called, on the data array being a subclass, on
+the same data / target / result having been used before, or on display / copy operations on the package's own
+``GenerateHeader`` object between two calls.  A call in a documented convention that raises while its arguments
+are bound never reaches the call-boundary monitors; the driver reports it (``call_not_accepted``).
+
 Nothing here calls scippneutron to obtain an expected value: expectations are the supplied
 arrays themselves (bytes) and a long-double square root.
 """
@@ -53,11 +64,18 @@ arrays themselves (bytes) and a long-double square root.
 from __future__ import annotations
 
 import codecs
+import contextlib
+import copy
+import decimal
+import enum
 import io
+import locale
 import os
 import pathlib
+import pickle
 import re
 import shutil
+import struct
 import tempfile
 
 import numpy as np
@@ -95,7 +113,20 @@ RULE = (
     'handle (w+, w+ CRLF, a+, w then a second read handle, NamedTemporaryFile, TemporaryFile, SpooledTemporaryFile) receives 2..5 things in a row (tables, refused '
     'saves, caller-written title / comment / number lines), tables are read back from their start offset '
     '(seek, or reading lines up to it, or reading on into header / rows) right after they were written and '
-    'at the end, from offset 0 and through the path.  distinct = distinct (accept/refuse class, target, '
+    'at the end, from offset 0 and through the path; or one case of the calling side: every process-wide setting that '
+    'changes how numbers are rendered / parsed (numpy print options: each legacy mode this numpy has, precision, '
+    'floatmode, suppress, sign, formatter, summarising thresholds, as set_printoptions and as printoptions context; '
+    'locale: C.utf8 and a locale with a decimal comma for LC_NUMERIC / LC_ALL -- an installed one or a copy of C.utf8 '
+    'with "," found through LOCPATH; decimal context with low precision / traps; relative names under another working '
+    'directory) x the call it covers (save, load, both) on values that need every digit; every calling convention '
+    '(positional, keyword, mixed, reordered keywords, defaults spelled out); names as numpy.str_ / str subclass / '
+    '(str, Enum) member x coord given / deduced; units as scipp.Unit / numpy.str_ / str subclass; 15 dimension names '
+    'that occur in the package or scipp (row, event, x, Y, E, dim_0, coord, header ...); DataArray subclass and a '
+    'StringIO subclass overriding write(); second use (same data to two targets, same path twice with a read in '
+    'between, same handle twice, a path after a refused save, the loaded result saved again, load twice, load after a '
+    'failed load) and 9 display / copy / pickle / comparison operations on GenerateHeader between calls; binned data '
+    '(bin masks, event masks) among the refusals; one heavy table (2**17+7 rows quick, 2**20+7 thorough) on a shard '
+    'of its own.  distinct = distinct (accept/refuse class, target, '
     'header class, n coords, coord= given, row band, value class, coordinate-state route, non-ASCII class; stream: target, '
     'header class, first / behind other content); trivial = ordinary values, generated header, one benign '
     'coordinate built from variables'
@@ -127,6 +158,14 @@ ASSUMPTIONS = [
     'angstrom, us, degC) belongs to the data, not to the caller: such files are judged, provided the text '
     'encoding of the target (default encoding of open() in this process for paths, .encoding of a handle; '
     'StringIO has none) can encode the header, and a reader handle uses the encoding of the writer',
+    'process-wide settings (numpy print options, locale, decimal context, working directory) are not among the '
+    'inputs of the property: the same data give the same file and the same arrays under each of them. Whether a '
+    'call leaves such a setting as it found it is outside the property: seen and counted',
+    'the documented signatures define the calling conventions: save_xye(fname, da, *, coord, header), '
+    'load_xye(fname, *, dim, unit, coord_unit, coord), each positional-or-keyword parameter either way; "str" '
+    'includes its subclasses (numpy.str_, members of a (str, Enum)), which stand for their characters',
+    'a written coordinate that carries variances of its own is neither in the list of refusals nor exactly '
+    'representable: executed and counted. Binned data has no variances (scipp) and counts as "no variances"',
 ]
 TECHNIQUE = ('runtime monitors (sys.monitoring) on save_xye / load_xye / _deduce_coord / '
              '_generate_xye_header; independent text-table parser on the artefact; bitwise and ulp '
@@ -162,6 +201,8 @@ PINNED = {
 }
 
 _NUM = re.compile(r'^[+-]?(\d+\.?\d*|\.\d+)([eE][+-]?\d+)?$')
+_N = r'([+-]?(?:\d+\.?\d*|\.\d+)(?:[eE][+-]?\d+)?)'
+_ROW3 = re.compile(r'[ \t]*' + _N + r'[ \t]+' + _N + r'[ \t]+' + _N + r'[ \t]*\Z')   # the common line, in one go
 _BARE_CR = re.compile(r'\r(?!\n)')
 _UNIV = re.compile(r'\r\n|\r|\n')
 
@@ -194,6 +235,10 @@ def parse_table(text, convention):
     """Independent reading of an XYE text: comment / blank / table lines."""
     rows, bad, n_comment, n_blank = [], [], 0, 0
     for ln in split_lines(text, convention):
+        m = _ROW3.match(ln)
+        if m is not None:       # same verdict as the general route below, which it is a special case of
+            rows.append((float(m[1]), float(m[2]), float(m[3])))
+            continue
         s = ln.strip(' \t\r\x0b\x0c')
         if s == '':
             n_blank += 1
@@ -301,6 +346,11 @@ def other_coord_classes(da, chosen):
     return out
 
 
+def plain(name):
+    """The characters of a name given as any kind of str (np.str_, a subclass, a member of a (str, Enum))."""
+    return str.__str__(name) if isinstance(name, str) else name
+
+
 def hexes(a, limit=8):
     a = np.asarray(a, dtype=np.float64)
     return [float(v).hex() for v in a[:limit]]
@@ -321,6 +371,7 @@ class Monitors:
         # compressor, write-only / read-only user objects): whoever drives the call says how the target can be
         # OBSERVED (where its text is, where it stands).  Nothing in here says what is expected.
         self.observers = {}
+        self.started = {'save_xye': 0, 'load_xye': 0}     # calls that got as far as the function body
 
     def register(self, obj, key, read, conv='universal', pos=None, encoding=None, deferred=False):
         """``read()`` -> text of the target (None: nothing there), ``pos()`` -> position of the object in
@@ -474,7 +525,7 @@ class Monitors:
     def model_coord(da, coord_arg):
         names = list(da.coords.keys())
         if coord_arg is not None:
-            return coord_arg
+            return plain(coord_arg)
         if len(names) == 1:
             return names[0]
         if da.ndim == 1 and da.dim in names:
@@ -503,6 +554,7 @@ class Monitors:
 
     # ---- save_xye -----------------------------------------------------------
     def save_start(self, ev):
+        self.started['save_xye'] += 1
         self.gen_header = None
         self.deduced = None
         return self.observe_start(ev, writing=True)
@@ -516,7 +568,7 @@ class Monitors:
             coord_arg, header_arg = ev.args.get('coord'), ev.args.get('header')
             classes, chosen = self.classify(da, coord_arg)
             key, tkind, conv, read = self.target_of(fname)
-            if coord_arg is not None and coord_arg not in da.coords:
+            if coord_arg is not None and plain(coord_arg) not in da.coords:
                 ctx.count('out_of_domain:coord_not_present')
                 return
             if key is None:
@@ -529,11 +581,18 @@ class Monitors:
             ctx.oracle_error('C15 save monitor (observation)')
             return
         base = {'k': self.label.get('k'), 'target': tkind, 'header_arg': _hdr_repr(header_arg),
-                'coord_arg': coord_arg, 'coords': [str(n) for n in da.coords.keys()],
+                'coord_arg': plain(coord_arg), 'coords': [str(n) for n in da.coords.keys()],
                 'coord_states': coord_states(da),
                 'dims': list(da.dims), 'shape': list(da.shape)}
         if self.label.get('step') is not None:
             base['step'] = self.label['step']
+        for extra in ('process_state', 'state_phase', 'call', 'second'):
+            if self.label.get(extra) is not None:
+                base[extra] = self.label[extra]
+        if coord_arg is not None and type(coord_arg) is not str:
+            base['coord_arg_type'] = type(coord_arg).__mro__[0].__name__ + '/' + type(coord_arg).__mro__[1].__name__
+        if type(da) is not sc.DataArray:
+            base['da_type'] = type(da).__name__
         if classes:
             self.judge_refusal(ev, classes, tkind, text, base, pre)
             return
@@ -593,6 +652,10 @@ class Monitors:
         try:
             if 'masks' in classes and all(m.ndim == 0 for m in ev.args['da'].masks.values()):
                 ctx.hit('refuse:masks_all_row_independent')
+            bins = ev.args['da'].bins
+            if bins is not None:
+                ctx.hit('refuse:binned_data' + ('_with_event_masks' if len(bins.masks) else '')
+                        + ('_with_bin_masks' if 'masks' in classes else ''))
         except Exception:  # noqa: BLE001
             pass
         if ev.exc is None:
@@ -628,13 +691,16 @@ class Monitors:
             var = np.array(da.variances, dtype=np.float64, copy=True)
             n = len(y)
             generated = not isinstance(header_arg, str)
-            eff_header = self.gen_header if generated else header_arg
+            eff_header = self.gen_header if generated else plain(header_arg)
             if eff_header is None:
                 eff_header = ''
             facts = header_facts(eff_header)
             keys = {'target': tkind, 'reader_newlines': conv,
                     'header_mode': 'generated' if generated else ('empty' if header_arg == '' else 'explicit'),
                     'header_has_bare_cr': facts['header_has_bare_cr']}
+            state = self.label.get('process_state')
+            if state is not None and self.label.get('state_phase') in ('save', 'both'):
+                keys['process_state'] = PROCESS_STATES[state][0]     # the family only: few-valued
             case = dict(base, effective_header=eff_header[:300], n=n, **facts)
             if n <= 8:
                 case.update(x=hexes(x), y=hexes(y), var=hexes(var))
@@ -783,6 +849,14 @@ class Monitors:
             ctx.dev('file.col3_ulp_vs_longdouble_sqrt', ulp_dist(fe, exp_e)[0])
             if col is None:
                 ctx.hit('file_judged:' + str(keys['target']))
+                if keys.get('process_state'):
+                    ctx.hit('file_judged_under_process_state:' + keys['process_state'])
+                if case.get('coord_arg_type'):
+                    ctx.hit('file_judged:coord_given_as:' + case['coord_arg_type'])
+                if case.get('da_type'):
+                    ctx.hit('file_judged:data_array_subclass')
+                if n > 10**5:
+                    ctx.hit('file_judged:rows_heavy')
             if col is not None:
                 want = {'x': x, 'y': y, 'e': exp_e}[col][i]
                 got = rows[i][{'x': 0, 'y': 1, 'e': 2}[col]]
@@ -815,6 +889,7 @@ class Monitors:
 
     # ---- load_xye -------------------------------------------------------------
     def load_start(self, ev):
+        self.started['load_xye'] += 1
         return self.observe_start(ev, writing=False)
 
     def expected_of_read(self, segs, text, pos, conv):
@@ -931,15 +1006,21 @@ class Monitors:
             keys = dict(first['keys'], file_header_escaped=any(g['file_header_escaped'] for g, _ in parts),
                         header_has_bare_cr=any(g['keys']['header_has_bare_cr'] for g, _ in parts),
                         read_from=start_class, tables_in_range='1' if len(parts) == 1 else '>1')
-            dim, unit, cunit = ev.args['dim'], ev.args['unit'], ev.args['coord_unit']
-            cname = ev.args.get('coord')
+            dim, unit, cunit = plain(ev.args['dim']), ev.args['unit'], ev.args['coord_unit']
+            cname = plain(ev.args.get('coord'))
             cname = dim if cname is None else cname
+            state = self.label.get('process_state')
+            if state is not None:
+                keys['process_state'] = PROCESS_STATES[state][0]
             case = dict(first['case'], load_args={'dim': dim, 'unit': str(unit), 'coord_unit': str(cunit),
-                                                  'coord': ev.args.get('coord')}, read_through=tkind,
+                                                  'coord': plain(ev.args.get('coord'))}, read_through=tkind,
                         read_position=pos, stream_length=len(text),
                         tables_in_range=[[g['start'], g['end'], g['n'], r] for g, r in parts], n=n)
             if self.label.get('step') is not None:
                 case['step'] = self.label['step']
+            for extra in ('process_state', 'state_phase', 'call', 'second'):
+                if self.label.get(extra) is not None:
+                    case[extra] = self.label[extra]
             ctx.event('load_xye.roundtrip')
             if nas:
                 ctx.event('load_xye.roundtrip.generated_header_not_ascii')
@@ -960,8 +1041,8 @@ class Monitors:
                           f'coords {list(getattr(res, "coords", {}).keys())}; requested dim {dim!r} coord {cname!r}',
                           case, single_row=n == 1, **keys)
                 return
-            want_u = None if unit is None else sc.Unit(unit)
-            want_cu = None if cunit is None else sc.Unit(cunit)
+            want_u = None if unit is None else unit if isinstance(unit, sc.Unit) else sc.Unit(plain(unit))
+            want_cu = None if cunit is None else cunit if isinstance(cunit, sc.Unit) else sc.Unit(plain(cunit))
             if res.unit != want_u or res.coords[cname].unit != want_cu:
                 self.viol('roundtrip_units', f'units {res.unit}/{res.coords[cname].unit} requested '
                           f'{want_u}/{want_cu}', case, **keys)
@@ -1019,6 +1100,14 @@ class Monitors:
                 ctx.hit('rows:1')
             if n >= 10000:
                 ctx.hit('rows:>=1e4')
+            if n > 10**5:
+                ctx.hit('rows:heavy')
+            # classes of the calling side (process-wide state, calling convention, kind of str / unit object,
+            # second use ...), credited where a round trip made under them was decided
+            if state is not None:
+                ctx.hit(f"process_state:{state}:{self.label.get('state_phase')}")
+            for tag in self.label.get('credit') or ():
+                ctx.hit(tag)
             # kind of target written -> kind of source read, and what the unwritten coordinates looked like
             for g, _ in parts:
                 ctx.hit(f"roundtrip:{g['keys']['target']}->{tkind}")
@@ -1129,7 +1218,7 @@ HEADER_CLASSES = ['default', 'default_hostile_name', 'default_cr_name', 'empty',
                   'lf_rows', 'crlf_rows', 'bare_cr_rows', 'witness_cr', 'ctrl_boundaries',
                   'random_ascii', 'edge_newlines']
 REFUSE_CLASSES = ['no_variances', 'bin_edges', 'bin_edges_deduced', 'masks', 'ndim0', 'ndim2', 'ndim3',
-                  'no_coord', 'ambiguous_coord', 'combo']
+                  'no_coord', 'ambiguous_coord', 'combo', 'binned', 'binned_bin_masks', 'binned_event_masks']
 REFUSE_TARGETS = ['path_str', 'stringio', 'handle']
 
 BENIGN_NAMES = ['x', 'tof', 'dspacing', 'two_theta', 'Q', 'wavelength', 'E', 'Y']
@@ -1174,7 +1263,7 @@ OLD_FILE = b'# d [\xc5]  Y [\xb5s] E\n' + b''.join(b'%d 2.000000000000000000e+00
 # pathlib.Path: user class with __fspath__, PurePosixPath, os.DirEntry; subclasses of str).
 FILELIKE_WRITERS = ['ntf', 'tmpfile', 'spooled_mem', 'spooled_rolled', 'codecs_ascii', 'codecs_utf8', 'codecs_latin1',
                     'gzip_wt', 'bz2_wt', 'lzma_wt', 'textio_bytesio', 'textio_bytesio_crlf', 'tee',
-                    'pathlike', 'str_subclass', 'direntry', 'purepath']
+                    'pathlike', 'str_subclass', 'direntry', 'purepath', 'sio_sub']
 # (writer, forced file-name suffix) -> kinds of source the written text is read through
 READERS_OF = {
     ('ntf', ''): ['same', 'path_str', 'codecs', 'lines'],
@@ -1190,6 +1279,7 @@ READERS_OF = {
     ('textio_bytesio', ''): ['same', 'textio_new'],
     ('textio_bytesio_crlf', ''): ['textio_new'],
     ('tee', ''): ['lines', 'iteronly'],
+    ('sio_sub', ''): ['same'],
     ('pathlike', ''): ['pathlike', 'path_str', 'lines'],
     ('str_subclass', ''): ['str_subclass', 'codecs'],
     ('direntry', ''): ['direntry', 'handle'],
@@ -1279,6 +1369,219 @@ class FsPath:
 
 class StrSub(str):
     pass
+
+
+class LoggingStringIO(io.StringIO):
+    """A user's subclass of a text stream that overrides write(): what the writer puts into the target has to
+    go through this method (the observer of such a target reads the log, not the buffer)."""
+
+    def __init__(self):
+        super().__init__()
+        self.log = []
+
+    def write(self, text):
+        self.log.append(text)
+        return super().write(text)
+
+
+class DataArraySub(sc.DataArray):
+    """A user's subclass of the documented argument class."""
+
+
+# ---- process-wide settings that can change how numbers are rendered or parsed -------------------------------
+# The table of an XYE file is a function of the data alone: whatever numpy's print options, the locale, the
+# decimal context or the working directory of the process are when save_xye / load_xye are called, the numbers
+# in the file and the arrays that come back are the same.  Each state is set before the call(s) it covers and
+# put back afterwards by the driver; the monitors judge the files / results exactly as in every other case.
+LOCALE_SRC = '/usr/lib/locale/C.utf8'
+COMMA_CANDIDATES = ['de_DE.UTF-8', 'de_DE.utf8', 'fr_FR.UTF-8', 'fr_FR.utf8', 'nl_NL.UTF-8', 'es_ES.UTF-8',
+                    'it_IT.UTF-8', 'pt_BR.UTF-8', 'ru_RU.UTF-8', 'sv_SE.UTF-8', 'pl_PL.UTF-8', 'da_DK.UTF-8', 'de_DE']
+
+
+@contextlib.contextmanager
+def _restore_locale():
+    saved = locale.setlocale(locale.LC_ALL)
+    try:
+        yield
+    finally:
+        locale.setlocale(locale.LC_ALL, saved)
+
+
+def _installed_comma_locale():
+    with _restore_locale():
+        for nm in COMMA_CANDIDATES:
+            try:
+                locale.setlocale(locale.LC_NUMERIC, nm)
+            except locale.Error:
+                continue
+            if locale.localeconv()['decimal_point'] == ',':
+                return nm
+    return None
+
+
+def _numeric_items(raw):
+    """Offsets of the items of a compiled glibc LC_NUMERIC file, None if it does not look like one."""
+    try:
+        magic, n = struct.unpack_from('<II', raw, 0)
+        offs = struct.unpack_from('<%dI' % n, raw, 8)
+    except struct.error:
+        return None
+    if magic != 0x20031114 or n < 4 or raw[offs[0]:offs[0] + 2] != b'.\x00' or raw[offs[3]:offs[3] + 4] != b'.\x00\x00\x00':
+        return None
+    return offs
+
+
+def _craftable_comma_locale():
+    try:
+        with open(os.path.join(LOCALE_SRC, 'LC_NUMERIC'), 'rb') as f:
+            return _numeric_items(f.read()) is not None
+    except OSError:
+        return False
+
+
+def _comma_locale_plan():
+    """How this machine can give a locale whose decimal point is a comma: an installed one, or a copy of the
+    C.utf8 locale whose LC_NUMERIC says ',' (found through LOCPATH; nothing is installed), or not at all."""
+    try:
+        nm = _installed_comma_locale()
+        if nm:
+            return ('installed', nm)
+        if _craftable_comma_locale():
+            return ('crafted', 'xx_XX.UTF-8')
+    except Exception:  # noqa: BLE001
+        pass
+    return None
+
+
+COMMA_LOCALE = _comma_locale_plan()
+
+
+def _craft_comma_locale(tmp):
+    root = os.path.join(tmp, 'locpath')
+    dst = os.path.join(root, 'xx_XX.UTF-8')
+    if not os.path.isdir(dst):
+        shutil.copytree(LOCALE_SRC, dst)
+        p = os.path.join(dst, 'LC_NUMERIC')
+        with open(p, 'rb') as f:
+            raw = bytearray(f.read())
+        offs = _numeric_items(bytes(raw))
+        raw[offs[0]] = ord(',')      # decimal_point
+        raw[offs[3]] = ord(',')      # its wide-character form
+        with open(p, 'wb') as f:
+            f.write(raw)
+    return root
+
+
+@contextlib.contextmanager
+def _np_print(**opts):
+    saved = np.get_printoptions()
+    np.set_printoptions(**opts)
+    try:
+        yield
+    finally:
+        np.set_printoptions(**saved)
+
+
+@contextlib.contextmanager
+def _np_print_context(**opts):
+    with np.printoptions(**opts):
+        yield
+
+
+@contextlib.contextmanager
+def _locale_state(category, name, tmp):
+    with _restore_locale():
+        had = os.environ.get('LOCPATH')
+        try:
+            if name == 'comma':
+                how, name = COMMA_LOCALE
+                if how == 'crafted':
+                    os.environ['LOCPATH'] = _craft_comma_locale(tmp)
+            locale.setlocale(category, name)
+        finally:
+            if had is None:
+                os.environ.pop('LOCPATH', None)
+            else:
+                os.environ['LOCPATH'] = had
+        if name != 'C.utf8' and locale.localeconv()['decimal_point'] != ',':
+            raise RuntimeError('locale without a decimal comma')
+        yield
+
+
+@contextlib.contextmanager
+def _decimal_state(traps=(), **attrs):
+    saved = decimal.getcontext().copy()
+    c = decimal.getcontext()
+    for a, v in attrs.items():
+        setattr(c, a, v)
+    for t in traps:
+        c.traps[t] = True
+    try:
+        yield
+    finally:
+        decimal.setcontext(saved)
+
+
+@contextlib.contextmanager
+def _cwd_state(tmp):
+    saved = os.getcwd()
+    os.chdir(tmp)
+    try:
+        yield
+    finally:
+        os.chdir(saved)
+
+
+def _x_formatter(v):
+    return 'X'
+
+
+def _process_states():
+    """name -> (family, factory(tmp) -> context manager).  Legacy print modes: those this numpy has."""
+    st = {}
+    for leg in ('1.13', '1.21', '1.25', '2.1'):
+        try:
+            with np.printoptions(legacy=leg):
+                pass
+        except Exception:  # noqa: BLE001  a mode this numpy does not know
+            continue
+        st['np_legacy_' + leg] = ('numpy_printoptions', lambda tmp, leg=leg: _np_print(legacy=leg))
+    st['np_legacy_1.13_context'] = ('numpy_printoptions', lambda tmp: _np_print_context(legacy='1.13'))
+    st['np_legacy_1.13_precision_3_suppress'] = (
+        'numpy_printoptions', lambda tmp: _np_print(legacy='1.13', precision=3, suppress=True))
+    st['np_precision_3'] = ('numpy_printoptions', lambda tmp: _np_print(precision=3))
+    st['np_precision_0'] = ('numpy_printoptions', lambda tmp: _np_print(precision=0))
+    for fm in ('fixed', 'unique', 'maxprec', 'maxprec_equal'):
+        st['np_floatmode_' + fm] = ('numpy_printoptions', lambda tmp, fm=fm: _np_print(floatmode=fm, precision=2))
+    st['np_suppress'] = ('numpy_printoptions', lambda tmp: _np_print(suppress=True, precision=4))
+    st['np_summarise'] = ('numpy_printoptions', lambda tmp: _np_print(threshold=3, edgeitems=1, linewidth=20))
+    st['np_sign_plus'] = ('numpy_printoptions', lambda tmp: _np_print(sign='+'))
+    st['np_sign_space'] = ('numpy_printoptions', lambda tmp: _np_print(sign=' '))
+    st['np_formatter'] = ('numpy_printoptions', lambda tmp: _np_print(
+        formatter={'float_kind': _x_formatter, 'all': _x_formatter}))
+    st['locale_c_utf8_all'] = ('locale', lambda tmp: _locale_state(locale.LC_ALL, 'C.utf8', tmp))
+    if COMMA_LOCALE is not None:
+        st['locale_comma_decimal_numeric'] = ('locale', lambda tmp: _locale_state(locale.LC_NUMERIC, 'comma', tmp))
+        st['locale_comma_decimal_all'] = ('locale', lambda tmp: _locale_state(locale.LC_ALL, 'comma', tmp))
+    st['decimal_prec_5_round_down'] = ('decimal', lambda tmp: _decimal_state(prec=5, rounding=decimal.ROUND_DOWN))
+    st['decimal_prec_1_traps'] = ('decimal', lambda tmp: _decimal_state(
+        traps=(decimal.Inexact, decimal.Rounded, decimal.Subnormal), prec=1, Emax=9, Emin=-9))
+    st['cwd_relative_name'] = ('cwd', lambda tmp: _cwd_state(tmp))
+    return st
+
+
+PROCESS_STATES = _process_states()
+STATE_PHASES = ['save', 'load', 'both']
+STATE_TARGETS = ['path_str', 'stringio', 'handle', 'path_pathlib', 'ntf', 'stringio_universal', 'handle_crlf']
+
+
+def process_snapshot():
+    """What the states above touch, as comparable values (to see whether a call changed the process)."""
+    po = dict(np.get_printoptions())
+    po['formatter'] = None if po.get('formatter') is None else sorted(po['formatter'])
+    c = decimal.getcontext()
+    return (repr(sorted(po.items())), locale.setlocale(locale.LC_ALL), (c.prec, c.rounding, c.Emin, c.Emax, repr(c.traps)),
+            os.getcwd())
 
 
 def file_lines(text, conv):
@@ -1473,6 +1776,45 @@ def schedule():
             out.append({'kind': 'refuse', 'cls': REFUSE_CLASSES[(3 * j + i) % len(REFUSE_CLASSES)], 'target': t})
     for t in FOREIGN_TARGETS:
         out.append({'kind': 'foreign', 'target': t})
+    # process-wide settings that change how numbers are rendered / parsed x the call(s) they cover; values that
+    # need every digit.  3 phases and 7 targets: every state meets several kinds of target
+    j = 0
+    for st in PROCESS_STATES:
+        for ph in STATE_PHASES:
+            # a relative name is a matter of path targets: both kinds of them
+            for tg in ([STATE_TARGETS[j % len(STATE_TARGETS)]] if st != 'cwd_relative_name' else ['path_str', 'path_pathlib']):
+                out.append({'kind': 'accept', 'header': ['default', 'plain', 'empty', 'lf_rows'][j % 4], 'target': tg,
+                            'rows': 1 if j % 7 == 3 else None, 'nonascii': '', 'vcls': ['mixed', 'bits'][j % 2],
+                            'state': st, 'phase': ph})
+            j += 1
+    # every calling convention the signatures allow
+    for j, cv in enumerate(CALLS):
+        for ti, t in enumerate(('path_str', 'stringio', 'handle')):
+            out.append({'kind': 'accept', 'header': ['default', 'plain', 'lf_rows'][(j + ti) % 3], 'target': t, 'rows': None,
+                        'nonascii': '', 'call': cv, 'coord_mode': ['explicit', 'deduced'][(j + ti) % 2]})
+    # names given as other kinds of str than str itself; units as unit objects / other kinds of str
+    for j, sf in enumerate(STR_FORMS):
+        for mi, mode in enumerate(('explicit', 'deduced')):
+            out.append({'kind': 'accept', 'header': ['plain', 'default'][(j + mi) % 2], 'target': ['stringio', 'path_str'][mi],
+                        'rows': None, 'nonascii': '', 'strform': sf, 'coord_mode': mode})
+    for j, uf in enumerate(UNIT_FORMS):
+        out.append({'kind': 'accept', 'header': 'default', 'target': ['path_pathlib', 'stringio', 'handle'][j], 'rows': None,
+                    'nonascii': ['', 'both', ''][j], 'na_index': 7, 'unitform': uf})
+    # dimensions named like names that occur in the module / in scipp's own defaults
+    for j, dn in enumerate(DIM_NAMES):
+        out.append({'kind': 'accept', 'header': 'default', 'target': ['stringio', 'path_str', 'handle'][j % 3],
+                    'rows': 1 if j % 6 == 5 else None, 'nonascii': '', 'dim_name': dn,
+                    'coord_mode': ['explicit', 'deduced'][j % 2]})
+    # second use of data / targets / results, display and copy operations in between
+    for j, sub in enumerate(SECOND_USES):
+        out.append({'kind': 'second', 'second': sub, 'target': ['path_str', 'path_pathlib'][j % 2],
+                    'rows': 1 if j % 5 == 3 else None})
+    # stand-ins of the documented argument classes; a written coordinate that has variances of its own
+    for mi, mode in enumerate(('explicit', 'deduced')):
+        out.append({'kind': 'accept', 'header': 'default', 'target': ['stringio', 'path_str'][mi], 'rows': None,
+                    'nonascii': '', 'layout': 'dict', 'da_subclass': True, 'coord_mode': mode})
+    out.append({'kind': 'accept', 'header': 'default', 'target': 'stringio', 'rows': None, 'nonascii': '',
+                'layout': 'dict', 'chosen_variances': True})
     return out
 
 
@@ -1490,8 +1832,24 @@ def random_spec(rng, only=None):
     h = HEADER_CLASSES[int(rng.choice(len(HEADER_CLASSES), p=w / w.sum()))]
     if only is None and rng.random() < 0.3:
         tw, sfx, rd = FILELIKE_PAIRS[int(rng.integers(0, len(FILELIKE_PAIRS)))]
-        return {'kind': 'accept', 'header': h, 'target': tw, 'suffix': sfx, 'reader': rd, 'rows': None}
-    return {'kind': 'accept', 'header': h, 'target': TARGETS[int(rng.integers(0, len(TARGETS)))], 'rows': None}
+        return calling_side(rng, {'kind': 'accept', 'header': h, 'target': tw, 'suffix': sfx, 'reader': rd, 'rows': None})
+    spec = {'kind': 'accept', 'header': h, 'target': TARGETS[int(rng.integers(0, len(TARGETS)))], 'rows': None}
+    return calling_side(rng, spec) if only is None else spec
+
+
+def calling_side(rng, spec):
+    """At random, the classes of the calling side on top of any accept case (every header / target / reader)."""
+    r = rng.random(4)
+    if r[0] < 0.12:
+        names = [st for st in PROCESS_STATES if st != 'cwd_relative_name']
+        spec.update(state=names[int(rng.integers(0, len(names)))], phase=STATE_PHASES[int(rng.integers(0, 3))], nonascii='')
+    if r[1] < 0.1:
+        spec['call'] = CALLS[int(rng.integers(0, len(CALLS)))]
+    if r[2] < 0.08:
+        spec['strform'] = STR_FORMS[int(rng.integers(0, len(STR_FORMS)))]
+    if r[3] < 0.08:
+        spec['unitform'] = UNIT_FORMS[int(rng.integers(0, len(UNIT_FORMS)))]
+    return spec
 
 
 class Env:
@@ -1529,6 +1887,10 @@ class Env:
             mon.register(t, ('obj', id(sink)), sink.getvalue, conv='lf', pos=lambda: len(sink.getvalue()))
             self.medium = {'sink': sink}
             return t, None, None
+        if kind == 'sio_sub':
+            f = LoggingStringIO()      # observed through what its write() override was handed
+            mon.register(f, ('obj', id(f)), lambda: ''.join(f.log), conv='lf')
+            return f, None, None
         if kind in ('spooled_mem', 'spooled_rolled'):
             f = tempfile.SpooledTemporaryFile(max_size=10**9 if kind == 'spooled_mem' else 64, mode='w+', dir=self.tmp)
 
@@ -1783,8 +2145,11 @@ def assemble(rng, dim, y, var, unit, coords, layout, n_extra, others=None, outer
 def build_accept(rng, spec, tier, k):
     n = spec.get('rows') or draw_rows(rng, tier, k)
     vcls = ['mixed', 'bits', 'special', 'ordinary'][int(rng.choice(4, p=[0.45, 0.25, 0.15, 0.15]))]
+    vcls = spec.get('vcls') or vcls
     h = spec['header']
     ncoords = int(rng.integers(1, 6))
+    if spec.get('dim_name') and spec.get('coord_mode') == 'deduced':
+        ncoords = 1      # a single coordinate need not carry the name of the dimension
     hostile = h in ('default_hostile_name', 'default_cr_name') or (h != 'default' and rng.random() < 0.3)
     pool = list(BENIGN_NAMES) + (list(HOSTILE_NAMES) if hostile else [])
     names = [pool[i] for i in rng.permutation(len(pool))[:ncoords]]
@@ -1818,6 +2183,8 @@ def build_accept(rng, spec, tier, k):
         dim = chosen  # with further coordinates the rule selects the dimension-coordinate
     if spec.get('other_named_dim') and dim == chosen:
         dim = 'row' if 'row' not in names else 'row_'
+    if spec.get('dim_name'):
+        dim = spec['dim_name']     # may coincide with the name of a coordinate that is not written
     cunit = ASCII_UNITS[int(rng.integers(0, len(ASCII_UNITS)))]
     unit = ASCII_UNITS[int(rng.integers(0, len(ASCII_UNITS)))]
     if na in ('coord', 'both'):
@@ -1834,6 +2201,10 @@ def build_accept(rng, spec, tier, k):
         if nm == chosen and rng.random() < 0.3:
             v = np.sort(v)
         coords[nm] = sc.array(dims=[dim], values=v, unit=cunit if nm == chosen else 'm')
+        if nm == chosen and spec.get('chosen_variances'):
+            # the written coordinate carries variances of its own: the format has no column for them and the
+            # property does not say whether that is "lossy" -> executed and counted by the monitors, not judged
+            coords[nm].variances = np.abs(draw_values(rng, n, 'ordinary'))
     # the coordinates in every state scipp allows; what is selected must not depend on the state.
     # Row-independent extras keep the case an accept case only if the rule still selects ``chosen``:
     # coord= given, or the chosen one is the dimension-coordinate.
@@ -1863,6 +2234,8 @@ def build_accept(rng, spec, tier, k):
     if outer_edges and layout in ('dict', 'flags'):
         layout = LAYOUTS[2 + int(rng.integers(0, 3))]
     da = assemble(rng, dim, y, var, unit, coords, layout, n_extra, others, outer_edges)
+    if spec.get('da_subclass'):
+        da = DataArraySub(da.data, coords=dict(da.coords.items()))
     kw = {}
     if explicit:
         kw['coord'] = chosen
@@ -1870,8 +2243,13 @@ def build_accept(rng, spec, tier, k):
     if hdr is not None:
         kw['header'] = hdr
     band = '1' if n == 1 else '2-3' if n < 4 else '4-300' if n <= 300 else '301-3000' if n < 10000 else '1e4'
+    band = 'heavy' if n > 10**5 else band
     sig = ('accept', spec['target'], h, len(da.coords), explicit, band, vcls, layout,
            (na or '-') + (spec.get('suffix') or ''), '+'.join(sorted(other_kinds)), spec.get('reader') or '-')
+    side = tuple(f'{a}={spec[a]}' for a in ('state', 'phase', 'call', 'strform', 'unitform', 'dim_name', 'second',
+                                            'chosen_variances', 'da_subclass') if spec.get(a))
+    if side:
+        sig = sig + side
     trivial = (h == 'default' and vcls == 'ordinary' and len(da.coords) == 1 and not hostile
                and layout == 'dict')
     return da, kw, dim, chosen, unit, cunit, sig, trivial
@@ -1892,6 +2270,26 @@ def build_refuse(rng, cls):
             parts = ['masks', parts[0]]
     dim = 'x'
     amb_leftovers = 0
+    if cls.startswith('binned'):
+        # binned (event) data: a list of events per row, no value +- uncertainty per row (scipp: variances None),
+        # with masks on the bins / on the events inside the bins
+        m = int(rng.integers(n, 6 * n + 1))
+        ev_x = rng.random(m)
+        table = sc.DataArray(sc.array(dims=['event'], values=draw_values(rng, m, 'ordinary'),
+                                      variances=np.abs(draw_values(rng, m, 'ordinary')), unit='counts'),
+                             coords={dim: sc.array(dims=['event'], values=ev_x, unit='m')})
+        da = table.bin({dim: n})
+        if rng.random() < 0.6:
+            da.coords[dim] = sc.midpoints(da.coords[dim])      # bin centres: nothing but the data is unrepresentable
+        if cls == 'binned_bin_masks':
+            mk = rng.random(n) < 0.4
+            mk[int(rng.integers(0, n))] = True
+            da.masks['bad_bin'] = sc.array(dims=[dim], values=mk)
+        if cls == 'binned_event_masks':
+            da.bins.masks['bad_event'] = da.bins.coords[dim] > sc.scalar(float(rng.random()), unit='m')
+        if rng.random() < 0.5:
+            kw['coord'] = dim
+        return da, kw, parts
     if 'ndim0' in parts:
         da = sc.DataArray(sc.scalar(float(y[0]), variance=float(var[0]), unit='counts'),
                           coords={'x': sc.scalar(float(x[0]), unit='m')})
@@ -2185,6 +2583,233 @@ def run_foreign(env, rng, spec):
     env.ctx.case(('foreign', spec['target']), trivial=True)
 
 
+# ---- the calling side: conventions, kinds of str / unit objects, process-wide state ----------------------
+CALLS = ['positional', 'keyword', 'mixed', 'keyword_reordered', 'explicit_defaults']
+STR_FORMS = ['np_str', 'str_subclass', 'str_enum']
+UNIT_FORMS = ['unit_object', 'np_str', 'str_subclass']
+DIM_NAMES = ['row', 'event', 'x', 'Y', 'E', 'dim_0', 'coord', 'header', 'fname', 'values', 'variances', 'unit',
+             'slit', 'range', 'vertex']
+BETWEEN_OPS = ['repr', 'str', 'format', 'copy', 'deepcopy', 'pickle', 'eq', 'hash', 'bool']
+SECOND_USES = (['same_data_two_targets', 'same_path_twice', 'same_handle_twice', 'path_after_refusal',
+                'result_fed_back', 'load_twice', 'load_after_failed_load', 'same_stringio_loaded_twice']
+               + ['between_' + op for op in BETWEEN_OPS])
+
+
+def reaches_body(env, which, conv, call):
+    """A call in a convention the documented signature allows has to get as far as the function: an exception
+    raised while the arguments are bound never shows up at the call-boundary monitors, so it is judged here."""
+    mon = env.mon
+    seen = mon.started[which]
+    try:
+        return call()
+    except Exception as e:
+        if mon.started[which] == seen:
+            mon.viol('call_not_accepted', f'{which} raised {type(e).__name__}: {str(e)[:160]} before its body ran; '
+                     f'calling convention: {conv or "positional"}',
+                     {'k': mon.label.get('k'), 'call': conv or 'positional', 'function': which},
+                     exc_type=type(e).__name__, function=which)
+        raise
+
+
+def call_save(env, conv, tgt, da, kw):
+    if conv == 'keyword':
+        return reaches_body(env, 'save_xye', conv, lambda: env.save(fname=tgt, da=da, **kw))
+    if conv == 'mixed':
+        return reaches_body(env, 'save_xye', conv, lambda: env.save(tgt, da=da, **kw))
+    if conv == 'keyword_reordered':
+        return reaches_body(env, 'save_xye', conv,
+                            lambda: env.save(**dict(reversed(list(kw.items()))), da=da, fname=tgt))
+    if conv == 'explicit_defaults':     # the documented defaults, spelled out
+        kw = dict(kw)
+        kw.setdefault('coord', None)
+        kw.setdefault('header', env.generate_header)
+    return reaches_body(env, 'save_xye', conv, lambda: env.save(tgt, da, **kw))
+
+
+def call_load(env, conv, src, lkw):
+    if conv == 'keyword':
+        return reaches_body(env, 'load_xye', conv, lambda: env.load(fname=src, **lkw))
+    if conv == 'keyword_reordered':
+        return reaches_body(env, 'load_xye', conv, lambda: env.load(**dict(reversed(list(lkw.items()))), fname=src))
+    if conv == 'explicit_defaults':
+        lkw = dict(lkw)
+        lkw.setdefault('coord', None)
+    return reaches_body(env, 'load_xye', conv, lambda: env.load(src, **lkw))
+
+
+def str_form(form, v):
+    if not isinstance(v, str):
+        return v
+    if form == 'np_str':
+        return np.str_(v)
+    if form == 'str_subclass':
+        return StrSub(v)
+    if form == 'str_enum':
+        return enum.Enum('Names', {'MEMBER': v}, type=str).MEMBER
+    return v
+
+
+def unit_form(form, u):
+    if u is None:
+        return None
+    if form == 'unit_object':
+        return sc.Unit(u)
+    return str_form(form, u)
+
+
+def under_state(env, spec, which):
+    """The process-wide state of this case, if it covers the call ``which`` ('save' / 'load')."""
+    st = spec.get('state')
+    if st and spec.get('phase') in (which, 'both'):
+        return checked_state(env, st)
+    return contextlib.nullcontext()
+
+
+@contextlib.contextmanager
+def checked_state(env, st):
+    with PROCESS_STATES[st][1](env.tmp):
+        snap = process_snapshot()
+        try:
+            yield
+        finally:
+            try:
+                if process_snapshot() != snap:     # outside the property: seen, counted, not judged
+                    env.ctx.count('info:process_state_changed_during_call:' + PROCESS_STATES[st][0])
+            except Exception:  # noqa: BLE001
+                pass
+
+
+def between_op(env, op):
+    """Display / copy / comparison of the package's own object between two calls; results must not change."""
+    g = env.generate_header
+    try:
+        if op == 'repr':
+            repr(g)
+        elif op == 'str':
+            str(g)
+        elif op == 'format':
+            format(g)
+            f'{g!s:>20}'
+        elif op == 'copy':
+            copy.copy(g)
+        elif op == 'deepcopy':
+            copy.deepcopy(g)
+        elif op == 'pickle':
+            pickle.loads(pickle.dumps(g))
+        elif op == 'eq':
+            (g == g, g != g, g == 'GenerateHeader', g == '')    # noqa: B015
+        elif op == 'hash':
+            {g: 1}[g]
+        elif op == 'bool':
+            bool(g)
+    except Exception as e:  # noqa: BLE001  not a computational call: seen and counted
+        env.ctx.count(f'between_op_raised:{op}:{type(e).__name__}')
+
+
+def run_second(shard, k, env, rng, spec):
+    """SECOND use: the same data / target / result handed to the package again, a call repeated after one that
+    raised; in between, display / copy operations on the package's own objects.  Every save and load in here
+    is an ordinary call for the monitors."""
+    ctx, mon = env.ctx, env.mon
+    sub = spec['second']
+    base = {'kind': 'accept', 'header': spec.get('header', 'default'), 'target': spec['target'], 'rows': spec.get('rows'),
+            'nonascii': '', 'vcls': 'mixed', 'second': sub}
+    da, kw, dim, chosen, unit, cunit, sig, trivial = build_accept(rng, base, env.tier, k)
+    lkw = {'dim': dim, 'unit': unit, 'coord_unit': cunit, 'coord': chosen}
+    mon.label = {'target': None, 'k': k, 'second': sub}     # the monitors name the kind of target themselves
+    paths = []
+
+    def path_target():
+        p = env.fresh_path(suffix='')
+        paths.append(p)
+        return p if spec['target'] == 'path_str' else pathlib.Path(p)
+
+    def quiet(f, *a, **b):
+        try:
+            return f(*a, **b)
+        except Exception:  # noqa: BLE001  judged by the monitors
+            return None
+
+    def credited(f, *a, **b):
+        mon.label['credit'] = ['second_use:' + sub]
+        try:
+            return quiet(f, *a, **b)
+        finally:
+            mon.label.pop('credit', None)
+
+    try:
+        if sub == 'same_data_two_targets':
+            a, b = path_target(), io.StringIO()
+            quiet(env.save, a, da, **kw)
+            quiet(env.save, b, da, **kw)
+            b.seek(0)
+            quiet(env.load, a, **lkw)
+            credited(env.load, b, **lkw)
+        elif sub == 'same_path_twice':
+            # a longer table first, then this one under the same name: the file holds the second alone
+            da0, kw0, *_ = build_accept(rng, dict(base, rows=da.shape[0] + int(rng.integers(1, 50))), env.tier, k)
+            a = path_target()
+            quiet(env.save, a, da0, **kw0)
+            quiet(env.load, a, **lkw)             # read in between: what is loaded next is the new content
+            quiet(env.save, a, da, **kw)
+            credited(env.load, a, **lkw)
+        elif sub == 'same_handle_twice':
+            p = env.fresh_path(suffix='')
+            paths.append(p)
+            with open(p, 'w+') as f:
+                quiet(env.save, f, da, **kw)
+                quiet(env.save, f, da, **kw)      # the same rows once more behind the first table
+                f.seek(0)
+                credited(env.load, f, **lkw)
+        elif sub == 'path_after_refusal':
+            bad, bkw, _ = build_refuse(rng, REFUSE_CLASSES[int(rng.integers(0, len(REFUSE_CLASSES)))])
+            a = path_target()
+            quiet(env.save, a, bad, **bkw)
+            quiet(env.save, a, da, **kw)
+            credited(env.load, a, **lkw)
+        elif sub == 'result_fed_back':
+            a, b = path_target(), path_target()
+            quiet(env.save, a, da, **kw)
+            res = quiet(env.load, a, **lkw)
+            if isinstance(res, sc.DataArray):
+                quiet(env.save, b, res)             # what load_xye returned is representable data again
+                res2 = credited(env.load, b, **lkw)
+                if isinstance(res2, sc.DataArray):
+                    quiet(env.save, io.StringIO(), res2, coord=chosen, header='')
+        elif sub in ('load_twice', 'same_stringio_loaded_twice'):
+            a = path_target() if sub == 'load_twice' else io.StringIO()
+            quiet(env.save, a, da, **kw)
+            for rep in range(2):
+                if isinstance(a, io.StringIO):
+                    a.seek(0)
+                (credited if rep else quiet)(env.load, a, **lkw)
+        elif sub == 'load_after_failed_load':
+            a = path_target()
+            quiet(env.save, a, da, **kw)
+            quiet(env.load, os.fspath(a) + '.absent', **lkw)     # FileNotFoundError, caught by the caller
+            credited(env.load, a, **lkw)
+        elif sub.startswith('between_'):
+            op = sub[len('between_'):]
+            a, b = path_target(), io.StringIO()
+            kw.pop('header', None)               # the header the package generates, both times
+            quiet(env.save, a, da, **kw)
+            between_op(env, op)
+            quiet(env.save, b, da, **kw)
+            between_op(env, op)
+            b.seek(0)
+            quiet(env.load, a, **lkw)
+            between_op(env, op)
+            credited(env.load, b, **lkw)
+        else:
+            raise KeyError(sub)
+    finally:
+        env.end_case()
+        for p in paths:
+            if os.path.exists(p):
+                os.remove(p)
+    ctx.case(sig, trivial=False)
+
+
 def run_one(shard, k, env):
     ctx, mon = env.ctx, env.mon
     seed, index = int(shard['seed']), int(shard['index'])
@@ -2198,6 +2823,9 @@ def run_one(shard, k, env):
         return
     if spec['kind'] == 'foreign':
         run_foreign(env, rng, spec)
+        return
+    if spec['kind'] == 'second':
+        run_second(shard, k, env, rng, spec)
         return
     if spec['kind'] == 'refuse':
         da, kw, parts = build_refuse(rng, spec['cls'])
@@ -2220,11 +2848,43 @@ def run_one(shard, k, env):
     suffix = spec.get('suffix')
     if spec.get('reader') and suffix is None:
         suffix = ''        # a reader that does not decompress cannot read what a compressing name wrote
+    if spec.get('state') == 'cwd_relative_name' and suffix is None:
+        suffix = ''
     tgt, path, closer = env.open_target(spec['target'], suffix, bool(spec.get('existing')))
+    # the calling side: convention, kind of str / unit objects, process-wide state; classes are credited by the
+    # round-trip monitor when the load made under them was decided
+    conv, sform, uform, state = spec.get('call'), spec.get('strform'), spec.get('unitform'), spec.get('state')
+    credit = []
+    if conv:
+        mon.label['call'] = conv
+        credit.append('call:' + conv)
+    if sform:
+        for a in ('coord', 'header'):
+            if a in kw and not (a == 'header' and sform == 'str_enum'):
+                kw[a] = str_form(sform, kw[a])
+        credit.append(f"names_as:{sform}:coord_{'given' if 'coord' in kw else 'deduced'}")
+    if uform:
+        credit.append('units_as:' + uform)
+    if spec.get('dim_name') and dim == spec['dim_name']:
+        credit.append('dim_named:' + dim)
+    if spec.get('da_subclass'):
+        credit.append('data_array_subclass')
+    if state:
+        mon.label['process_state'], mon.label['state_phase'] = state, spec['phase']
+    relative = state == 'cwd_relative_name' and isinstance(tgt, str | os.PathLike)
+
+    def rel(x, which):
+        """The name relative to the working directory the state sets (the scratch directory of the worker)."""
+        if not relative or spec['phase'] not in (which, 'both') or not isinstance(x, str | os.PathLike):
+            return x
+        r = os.path.relpath(os.path.realpath(os.fspath(x)), os.path.realpath(env.tmp))
+        return type(x)(r)
+
     saved = False
     try:
         try:
-            env.save(tgt, da, **kw)
+            with under_state(env, spec, 'save'):
+                call_save(env, conv, rel(tgt, 'save'), da, kw)
             saved = True
         except Exception:  # noqa: BLE001  judged by the save monitor
             pass
@@ -2235,6 +2895,11 @@ def run_one(shard, k, env):
             lkw = {'dim': dim, 'unit': unit, 'coord_unit': cunit}
             if rng.random() < 0.5 or chosen != dim:
                 lkw['coord'] = chosen
+            if sform:
+                lkw = {a: str_form(sform, v) if a in ('dim', 'coord') else v for a, v in lkw.items()}
+            if uform:
+                lkw = {a: unit_form(uform, v) if a in ('unit', 'coord_unit') else v for a, v in lkw.items()}
+            mon.label['credit'] = credit
             fh = None
             if spec.get('reader'):
                 mon.label['reader'] = spec['reader']
@@ -2250,7 +2915,8 @@ def run_one(shard, k, env):
             else:
                 src = path if rng.random() < 0.5 else pathlib.Path(path)
             try:
-                env.load(src, **lkw)
+                with under_state(env, spec, 'load'):
+                    call_load(env, conv, rel(src, 'load'), lkw)
             except Exception:  # noqa: BLE001  judged by the round-trip monitor
                 pass
             finally:
@@ -2262,7 +2928,8 @@ def run_one(shard, k, env):
                 # the file save_xye put under the path, read through a text handle opened the default way
                 with open(path) as fh2:
                     try:
-                        env.load(fh2, **lkw)
+                        with under_state(env, spec, 'load'):
+                            call_load(env, conv, fh2, lkw)
                     except Exception:  # noqa: BLE001  judged by the round-trip monitor
                         pass
     finally:
@@ -2291,15 +2958,23 @@ def arm(ctx):
 NA_TCLASSES = ['path', 'path_compressed', 'handle', 'stringio']
 # code points outside ASCII in the string forms of the unit pool (what the generated header must carry)
 NA_UNIT_SYMBOLS = sorted({'U+%04X' % ord(ch) for u in NON_ASCII_UNITS for ch in str(sc.Unit(u)) if ord(ch) > 127})
-N_SHARDS = 16
-CASES = {'quick': 40, 'thorough': 1300}
+# quick: 13 shards + the heavy case on a shard of its own (one wave together with the runner's two environment variants)
+N_SHARDS = {'quick': 13, 'thorough': 15}
+CASES = {'quick': 48, 'thorough': 1400}
+# sizes beyond every threshold of the text reader / writer underneath (numpy reads in chunks of 50000 rows)
+HEAVY_ROWS = {'quick': 2**17 + 7, 'thorough': 2**20 + 7}
 
 
 def plan(tier, seed):
     sched = schedule()
     shards = []
-    for i in range(N_SHARDS):
-        shards.append({'cases': CASES[tier], 'scheduled': sched[i::N_SHARDS]})
+    n = N_SHARDS[tier]
+    for i in range(n):
+        mine = sched[i::n]
+        shards.append({'cases': max(CASES[tier], len(mine) + 6), 'scheduled': mine})
+    shards.append({'cases': 1, 'scheduled': [{'kind': 'accept', 'header': 'default', 'target': 'path_str',
+                                              'rows': HEAVY_ROWS[tier], 'vcls': 'bits', 'nonascii': '', 'suffix': '',
+                                              'layout': 'dict'}]})
     return shards
 
 
@@ -2335,13 +3010,25 @@ def requirements(tier):
               # every kind of coordinate that is not written, next to a written one named / deduced
               + [f'other_coord:{OTHER_KINDS[kd]}:{mode}' for kd in OTHER_LIST for mode in ('explicit', 'deduced')]
               + ['other_coord:edges_is_dimension_coordinate:explicit', 'other_coord:rows_1',
-                 'other_coord:several_kinds_side_by_side'])
+                 'other_coord:several_kinds_side_by_side']
+              # process-wide settings x the call(s) they cover
+              + [f'process_state:{st}:{ph}' for st in PROCESS_STATES for ph in STATE_PHASES]
+              + ['file_judged_under_process_state:' + fam for fam in sorted({f for f, _ in PROCESS_STATES.values()})]
+              + ['call:' + cv for cv in CALLS]
+              + [f'names_as:{sf}:coord_{m}' for sf in STR_FORMS for m in ('given', 'deduced')]
+              + ['file_judged:coord_given_as:' + t for t in ('str_/str', 'StrSub/str', 'Names/str')]
+              + ['units_as:' + uf for uf in UNIT_FORMS]
+              + ['dim_named:' + dn for dn in DIM_NAMES]
+              + ['second_use:' + sub for sub in SECOND_USES]
+              + ['data_array_subclass', 'file_judged:data_array_subclass', 'rows:heavy', 'file_judged:rows_heavy',
+                 'refuse:binned_data', 'refuse:binned_data_with_event_masks', 'refuse:binned_data_with_bin_masks'])
     return {'events': {'save_xye.file': 250 if q else 10000, 'load_xye.roundtrip': 250 if q else 10000,
                        'save_xye.refusal': 80 if q else 3000, '_deduce_coord': 60 if q else 2000,
                        '_generate_xye_header': 60 if q else 2000,
                        'load_xye.roundtrip.generated_header_not_ascii': 40 if q else 400},
             'forced': forced,
-            'counters': {'out_of_domain:unknown_target_type': len(FOREIGN_TARGETS)}}
+            'counters': {'out_of_domain:unknown_target_type': len(FOREIGN_TARGETS),
+                         'out_of_domain:data_or_written_coordinate_not_plain_float64': 1}}
 
 
 def run(shard, ctx):
@@ -2350,6 +3037,7 @@ def run(shard, ctx):
     X, mon, tr = arm(ctx)
     tmp = tempfile.mkdtemp(prefix='rv-c15-')
     env = Env(tmp, X.save_xye, X.load_xye, mon, ctx, shard.get('tier', 'quick'))
+    env.generate_header = X.GenerateHeader
     try:
         with tr:
             for k in range(int(shard['cases'])):
@@ -2370,6 +3058,7 @@ def replay(v, ctx):
         X, mon, tr = arm(ctx)
         tmp = tempfile.mkdtemp(prefix='rv-c15-')
         env = Env(tmp, X.save_xye, X.load_xye, mon, ctx, shard.get('tier', 'quick'))
+        env.generate_header = X.GenerateHeader
         try:
             with tr:
                 run_one(shard, int(k), env)
